@@ -1,5 +1,30 @@
 import PgsVerif.Model.Context
-import PgsVerif.Generated.Code
+import PgsVerif.Generated.Code_dir_JoinPath
+import PgsVerif.Generated.Code_dir_OutputPath
+import PgsVerif.Generated.Code_dir_Pop
+import PgsVerif.Generated.Code_dir_PopDir
+import PgsVerif.Generated.Code_dir_Push
+import PgsVerif.Generated.Code_dir_PushDir
+import PgsVerif.Generated.Code_initDirContext
+import PgsVerif.Generated.Code_initPrefixContext
+import PgsVerif.Generated.Code_prefix_JoinPath
+import PgsVerif.Generated.Code_prefix_OutputPath
+import PgsVerif.Generated.Code_prefix_Parameters
+import PgsVerif.Generated.Code_prefix_Pop
+import PgsVerif.Generated.Code_prefix_PopDir
+import PgsVerif.Generated.Code_prefix_Push
+import PgsVerif.Generated.Code_prefix_PushDir
+import PgsVerif.Generated.Code_prefixedDebugger_Push
+import PgsVerif.Generated.Code_prefixedDebugger_prepend
+import PgsVerif.Generated.Code_prefixedDebugger_prependFormat
+import PgsVerif.Generated.Code_rootDebugger_Push
+import PgsVerif.Generated.Code_root_JoinPath
+import PgsVerif.Generated.Code_root_OutputPath
+import PgsVerif.Generated.Code_root_Parameters
+import PgsVerif.Generated.Code_root_Pop
+import PgsVerif.Generated.Code_root_PopDir
+import PgsVerif.Generated.Code_root_Push
+import PgsVerif.Generated.Code_root_PushDir
 /-!
 # Tie (translated code): the methods of the three kinds of build context
 
